@@ -1225,6 +1225,14 @@ def r9_every_rating_is_saved(ctx):
                       "the rating field")
 
 
+
+def r10_one_row_per_rating(ctx):
+    """features recomputed from a loaded container stay paired with the
+    stored ratings: shared with C15-R4"""
+    from .c15 import r4_export_load
+    r4_export_load(ctx)
+
+
 RULES = [
     ("C16-R1", "writer and reader tables agree (datasets, attributes, "
      "inverse encodings)", r1_tables_agree),
@@ -1243,4 +1251,6 @@ RULES = [
      "(the reader parses them with float())", r8_textual_numbers),
     ("C16-R9", "the rating dialog stores every entered rating (0 included)",
      r9_every_rating_is_saved),
+    ("C16-R10", 'the sample matrix of a container has one row per stored rating (no curve skipped)',
+     r10_one_row_per_rating),
 ]
